@@ -33,7 +33,7 @@ CLAIMED["C10"] = dict(
          "The segment search of _vnacal_rfi is closed by DFCC loop contracts for any number of iterations "
          "(bracketing postcondition, termination). Exactness at the knots is proved for the spline evaluator "
          "(any coefficients) and for _vnacal_rfi with up to 4 knots and any hint: bounded in the number of "
-         "knots. Interpolated values between knots are floating point and not examined.",
+         "knots. Interpolated values between knots: only a bounded set of concrete witnesses (tables of 1/(1+x) on 2, 3, 5 knots).",
     note="values between knots not covered; spline slope value (one double division) not examined; knots >= 1 mHz "
          "apart; the apply comparison is restated in the harness; complex compiled as double",
     design="DESIGN.md 3 C10, 8.2",
